@@ -31,7 +31,7 @@ def pad (l : List Int) (n : Nat) : List Int := l ++ List.replicate (n - l.length
 
 structure Res where
   stats : List String := []
-  findings : List (String × String × String) := []    -- kind, name, detail
+  findings : List (String × String × String × String) := []    -- kind, properties, name, detail
 
 def check (j : Json) : Res := Id.run do
   let ds := (J.arrOf j "dels").map parseDel
@@ -49,7 +49,7 @@ def check (j : Json) : Res := Id.run do
   if !ds.all wf then
     -- outside the theorem's hypotheses: reported, because the theorem then says nothing about this call
     r := { r with stats := "payout.not_wf" :: r.stats,
-                  findings := ("monitor", "delegation_outside_theorem_domain", s!"a share worth more than two tokens, or a delegation larger than its validator: {repr ds}. {ctxt}") :: r.findings }
+                  findings := ("monitor", "C02,C04", "delegation_outside_theorem_domain", s!"a share worth more than two tokens, or a delegation larger than its validator: {repr ds}. {ctxt}") :: r.findings }
   if ds.any (fun d => d.vtokens * Dec.prec > d.vshares.raw) then r := { r with stats := "payout.share_worth_more_than_a_token" :: r.stats }
   if (J.intOf j "slashes") > 0 then r := { r with stats := "payout.after_slash" :: r.stats }
   if ds.length ≥ 2 then r := { r with stats := "payout.several_delegations" :: r.stats }
@@ -62,36 +62,46 @@ def check (j : Json) : Res := Id.run do
   if outcome == "ok" then
     r := { r with stats := "payout.ok" :: r.stats }
     if delta != payout then
-      r := { r with findings := ("monitor", "payout_arrives_in_full", s!"{delta} arrived in the module account. {ctxt}") :: r.findings }
+      r := { r with findings := ("monitor", "C02,C04", "payout_arrives_in_full", s!"{delta} arrived in the module account. {ctxt}") :: r.findings }
     if (gave.zip ds).any (fun (g, d) => g < 0 || g > d.amount) then
-      r := { r with findings := ("monitor", "nobody_gives_more_than_it_holds", s!"per delegation given={gave} worth={ds.map Del.amount}. {ctxt}") :: r.findings }
+      r := { r with findings := ("monitor", "C02,C04", "nobody_gives_more_than_it_holds", s!"per delegation given={gave} worth={ds.map Del.amount}. {ctxt}") :: r.findings }
     -- the hook recomputes the stake before the validator's tokens and shares are reduced: the record may lag behind by
     -- the rounding of the new rate (one unit per delegation), and only downwards (C06 reads it as an upper bound)
     if J.intOf j "recorded_post" > bondedOf post || J.intOf j "recorded_post" + ds.length < bondedOf post then
-      r := { r with findings := ("monitor", "recorded_stake_current_after_payout", s!"recorded={J.intOf j "recorded_post"} delegations worth {bondedOf post}. {ctxt}") :: r.findings }
+      r := { r with findings := ("monitor", "C02,C04", "recorded_stake_current_after_payout", s!"recorded={J.intOf j "recorded_post"} delegations worth {bondedOf post}. {ctxt}") :: r.findings }
     if !covered then
-      r := { r with findings := ("monitor", "uncovered_payout_refused", s!"paid although the stake does not cover purchased + payout. {ctxt}") :: r.findings }
+      r := { r with findings := ("monitor", "C02,C04", "uncovered_payout_refused", s!"paid although the stake does not cover purchased + payout. {ctxt}") :: r.findings }
   else
     r := { r with stats := "payout.refused" :: r.stats }
     if covered then
-      r := { r with findings := ("monitor", "covered_payout_is_made", s!"the stake covers purchased + payout but the call failed. {ctxt}") :: r.findings }
+      r := { r with findings := ("monitor", "C02,C04", "covered_payout_is_made", s!"the stake covers purchased + payout but the call failed. {ctxt}") :: r.findings }
+  -- ---------------- C19: a payout is not signed by the unlocker, so it unlocks nothing — beyond the locked coins that the
+  -- account's own delegation tracking says have left with it (never any in SDK 0.42.4, which does not persist that tracking)
+  if J.has j "mva" then
+    let m := J.get j "mva"
+    r := { r with stats := (if J.intOf m "dv_pre" > 0 then "payout.locked_provider_tracked" else "payout.locked_provider") :: r.stats }
+    let unlocked := J.intOf m "vested_post" - J.intOf m "vested_pre"
+    let left := J.intOf m "dv_pre" - J.intOf m "dv_post"
+    if outcome == "ok" && (unlocked < 0 || unlocked > left) then
+      r := { r with findings := ("monitor", "C19", "payout_unlocks_nothing",
+        s!"a payout of {payout} out of the stake of an account with {J.intOf m "ov"} locked raised its unlocked amount by {unlocked}; {left} locked coins left its delegations according to its own tracking. {ctxt}") :: r.findings }
   -- ---------------- the model on the same input
   match makePayout (bondedOf ds) purchased payout ds (ubds.map (·.bal)) with
   | .error _ =>
     if outcome != "panic: exact pay out was not made from unbondings" then
-      r := { r with findings := ("diverge", "payout:outcome", s!"model refuses (not covered by the unbonding entries). {ctxt}") :: r.findings }
+      r := { r with findings := ("diverge", "C02,C04", "payout:outcome", s!"model refuses (not covered by the unbonding entries). {ctxt}") :: r.findings }
   | .ok (pd, pu) =>
     if outcome != "ok" then
-      r := { r with findings := ("diverge", "payout:outcome", s!"model pays {pd} / {pu}. {ctxt}") :: r.findings }
+      r := { r with findings := ("diverge", "C02,C04", "payout:outcome", s!"model pays {pd} / {pu}. {ctxt}") :: r.findings }
     else
       if !pu.isEmpty then r := { r with stats := "payout.from_unbondings" :: r.stats }
       if !pd.isEmpty then r := { r with stats := "payout.from_delegations" :: r.stats }
       if pad pd ds.length != gave then
-        r := { r with findings := ("diverge", "payout:delegations", s!"model={pad pd ds.length} impl={gave}. {ctxt}") :: r.findings }
+        r := { r with findings := ("diverge", "C02,C04", "payout:delegations", s!"model={pad pd ds.length} impl={gave}. {ctxt}") :: r.findings }
       -- an entry that pays its whole balance is removed; one that pays nothing is not touched (even if it holds nothing)
       let expect := ((ubds.zip (pad pu ubds.length)).filter (fun (u, t) => !(t > 0 && t == u.bal))).map (fun (u, t) => { u with bal := u.bal - t })
       if canon expect != canon ubdsPost then
-        r := { r with findings := ("diverge", "payout:unbondings", s!"model={repr (canon expect)} impl={repr (canon ubdsPost)}. {ctxt}") :: r.findings }
+        r := { r with findings := ("diverge", "C02,C04", "payout:unbondings", s!"model={repr (canon expect)} impl={repr (canon ubdsPost)}. {ctxt}") :: r.findings }
       else r := { r with stats := "payout.agree" :: r.stats }
   return r
 
